@@ -79,7 +79,7 @@ impl<K, V> BTreeMap<K, V> {
 impl<V> BTreeMap<usize, V> {
     pub fn insert(&mut self, key: usize, value: V) -> Option<V> {
         if key >= SLOTS {
-            crate::verif_capacity!("BTreeMap key outside the model range");
+            crate::verif_capacity!("VERIF-CAPACITY: BTreeMap key outside the model range");
         }
 
         self.slots[key].replace(value)
@@ -127,7 +127,7 @@ impl<V> BTreeMap<usize, V> {
 
     pub fn entry(&mut self, key: usize) -> Entry<'_, V> {
         if key >= SLOTS {
-            crate::verif_capacity!("BTreeMap key outside the model range");
+            crate::verif_capacity!("VERIF-CAPACITY: BTreeMap key outside the model range");
         }
 
         Entry {
